@@ -72,9 +72,7 @@ def demo : List (Stmt E) :=
 
 example : OkStmts (fun t => Good fcfg t = true) demo := by
   simp only [demo, OkStmts, OkStmt, and_true]
-  refine ⟨by decide, by decide, ?_, ⟨by decide, by decide, trivial⟩, trivial⟩
-  intro s hs
-  cases hs
-  decide
+  repeat' constructor
+  all_goals first | decide | (intro s hs; cases hs; decide)
 
 end LokiModel.C01
